@@ -2,6 +2,7 @@ package main
 
 import (
 	"fmt"
+	"math"
 	"sort"
 	"strconv"
 	"strings"
@@ -132,10 +133,28 @@ func (p *pipe) gather() string {
 	if err != nil {
 		return "G err " + strings.ReplaceAll(gatherClass(err), " ", "_")
 	}
-	var fams []string
 	textOK := "1"
+	// the text exposition must parse back
+	var sb strings.Builder
+	enc := expfmt.NewEncoder(&sb, expfmt.NewFormat(expfmt.TypeTextPlain))
 	for _, mf := range mfs {
-		if builtinNames[mf.GetName()] {
+		if e := enc.Encode(mf); e != nil {
+			textOK = "0"
+		}
+	}
+	var parser expfmt.TextParser
+	back, perr := parser.TextToMetricFamilies(strings.NewReader(sb.String()))
+	if perr != nil || len(back) != len(mfs) {
+		textOK = "0"
+	}
+	return formatFamilies(mfs, func(n string) bool { return builtinNames[n] }, textOK)
+}
+
+// canonical rendering of gathered families (shared with the end-to-end engine, which parses /metrics)
+func formatFamilies(mfs []*dto.MetricFamily, skip func(string) bool, textOK string) string {
+	var fams []string
+	for _, mf := range mfs {
+		if skip(mf.GetName()) {
 			continue
 		}
 		t := "?"
@@ -152,6 +171,9 @@ func (p *pipe) gather() string {
 				t = "h"
 				var bs []string
 				for _, b := range m.Histogram.Bucket {
+					if math.IsInf(b.GetUpperBound(), 1) {
+						continue // implicit in a gathered family, explicit in the text exposition
+					}
 					bs = append(bs, fbits(b.GetUpperBound())+":"+strconv.FormatUint(b.GetCumulativeCount(), 10))
 				}
 				series = append(series, fmt.Sprintf("%s@%d/%s/%s", labelPairs(m, ""), m.Histogram.GetSampleCount(), fbits(m.Histogram.GetSampleSum()), strings.Join(bs, ",")))
@@ -166,19 +188,6 @@ func (p *pipe) gather() string {
 		}
 		sort.Strings(series)
 		fams = append(fams, fmt.Sprintf("F:%s:%s:%s:%s", hx(mf.GetName()), t, hx(mf.GetHelp()), strings.Join(series, ";")))
-	}
-	// the text exposition must parse back
-	var sb strings.Builder
-	enc := expfmt.NewEncoder(&sb, expfmt.NewFormat(expfmt.TypeTextPlain))
-	for _, mf := range mfs {
-		if e := enc.Encode(mf); e != nil {
-			textOK = "0"
-		}
-	}
-	var parser expfmt.TextParser
-	back, perr := parser.TextToMetricFamilies(strings.NewReader(sb.String()))
-	if perr != nil || len(back) != len(mfs) {
-		textOK = "0"
 	}
 	sort.Strings(fams)
 	if len(fams) == 0 {
